@@ -247,6 +247,7 @@ def run(db, cx):
     # ------------------------------------------- 6. reported length = integrated length
     driver_length_coherent(db, cx)
     substep_bounded(db, cx)
+    accept_threshold(db, cx)
 
 
 DRS = "f:" + C + "DriverResult::state"
@@ -403,6 +404,31 @@ def substep_bounded(db, cx, rule="C08.7-substep-bounded"):
                       why="the driver reports min(curve_length, step) as the length of the state it "
                           "returns; a sub-step longer than what remains integrates the state past the "
                           "requested chord, so the track moves further than its reported step")
+
+
+def accept_threshold(db, cx):
+    """C08.8 (seeded change c08e): the length below which the propagator commits the end state of
+    a *whole* trial sub-step for a partial advance (`update_length <= minimum_substep()`) is the
+    integrator's own resolution, `driver_.minimum_step()`, and nothing larger."""
+    fs = [f for f in db.find(r"^celeritas::FieldPropagator::minimum_substep$") for f in db.get(f)]
+    cx.require(fs, "anchor FieldPropagator::minimum_substep not found")
+    for f in fs:
+        tag = f.inst.split("<", 1)[1][:40] if "<" in f.inst else ""
+        rets = [e for (_b, _i, e) in f.events("return")]
+        ok = bool(rets)
+        for e in rets:
+            calls = [c for c in e.get("calls", [])]
+            t = (e.get("t") or "").replace("this->", "").replace(" ", "")
+            simple = len(calls) == 1 and calls[0].endswith("::minimum_step") and t.endswith(".minimum_step()") \
+                and not any(ch in t for ch in "+*/,")
+            bounded = any(c.endswith("::min") for c in calls) and any(c.endswith("::minimum_step") for c in calls) \
+                and not any(c.endswith("::max") for c in calls)
+            ok = ok and (simple or bounded)
+        cx.ob("C08.8-accept-threshold", "minimum_substep() is the driver's minimum step [%s]" % tag, ok,
+              "; ".join(e.get("t", "") for e in rets), short(f.loc),
+              why="below this length the propagator accepts a boundary hit with the momentum of the "
+                  "end of the full trial sub-step; a larger threshold (e.g. the bump distance) rotates "
+                  "the direction by a sub-step that was not travelled: the end point leaves the helix")
 
 
 def driver_length_coherent(db, cx):
